@@ -44,14 +44,23 @@ var useWrappedEOF int32
 // the same payload classes with the lexical failure placed inside a block body (the parser is then inside blockStmt's loop)
 var failInBlock int32
 
+// the same payload classes with the line break in front of each statement: a chunk ends inside a line, so a diagnostic for its
+// last statement is formatted while the line table does not yet know where that line ends
+var nlFirst int32
+
 func (it pipeItem) step() readStep {
 	var st readStep
 	if it.N == 1 {
 		var sb strings.Builder
 		for i := 0; i < it.Toks; i++ {
-			if it.Bad && i == it.Toks-1 {
+			switch {
+			case atomic.LoadInt32(&nlFirst) == 1 && it.Bad && i == it.Toks-1:
+				sb.WriteString("\nprint ) (") // 3 tokens (the parser reports ')' once it has seen the next one), the line still open when the chunk ends
+			case atomic.LoadInt32(&nlFirst) == 1:
+				sb.WriteString("\nprint(1)") // 4 tokens, each complete within the chunk
+			case it.Bad && i == it.Toks-1:
 				sb.WriteString("eval )\n")
-			} else {
+			default:
 				sb.WriteString("eval 1\n")
 			}
 		}
